@@ -132,6 +132,27 @@ def scenario_requests(sess, rng, r, nep, plan, label):
         for _ in range(n):
             ha.tick()
             q = ha.run()
+            while q.get('waiting') == '0' and q.rc == 0:
+                # "nothing is waiting": an application that loops on this value stops here. Another run at the same instant (no clock step, nothing new
+                # on the wire) must not find a finished handle that was already sitting in the service's own queue
+                r.count('ha_runs_that_reported_nothing_waiting')
+                q2 = ha.run()
+                if q2.get('handle') == '1' and int(q2.get('state', 0)) in (ST_RESP, ST_ERR, ST_NOTICE):
+                    ha.viol('finished-handle-not-counted-as-waiting', 'KSI_AsyncService_run reported 0 waiting; the next run, at the same instant, handed out a handle in state %s (tag %s)' % (q2.get('state'), q2.get('tag')))
+                    handle_returned(q)
+                    q = q2
+                    continue
+                handle_returned(q)
+                q = q2
+                break
+            handle_returned(q)
+            for i, host in enumerate(ha.hosts):
+                for info, rq in ha.requests_on(host):
+                    reqs[i] = (info, rq)
+
+    def handle_returned(q):
+        nonlocal notices
+        if True:
             if q.get('handle') == '1':
                 st = int(q['state'])
                 if st == ST_NOTICE:
@@ -142,9 +163,6 @@ def scenario_requests(sess, rng, r, nep, plan, label):
                     pass
                 else:
                     returned.append((st, q.get('tag'), q.get('sig'), int(q.get('herr', 0)), dict(finished)))
-            for i, host in enumerate(ha.hosts):
-                for info, rq in ha.requests_on(host):
-                    reqs[i] = (info, rq)
     finished = {}       # endpoint index -> 'valid'|'failed' once its outcome has been produced (timeouts: when the clock passed)
     for i, o in enumerate(outcomes):
         if o == 'refuse':
